@@ -93,6 +93,13 @@ func c10Scenarios(thorough bool) []*explore.Scenario {
 		sc.TickBudget = 2
 		scs = append(scs, sc)
 	}
+	// F: recovery with the background worker configured: the worker must not run while the recovering Open rebuilds the
+	// index without the database lock (every file-system call of the recovery is a scheduling point)
+	for i, ws := range [][]explore.ThreadProg{{{op(explore.Get, "a")}}, {{op(explore.Put, "a")}, {op(explore.Close, "")}}} {
+		sc := mk(fmt.Sprintf("WR-%d", i), "S2", "ROLL", ws...)
+		sc.Worker, sc.TickBudget, sc.Unclean, sc.FSYield, sc.Bound = true, 2, true, true, 2
+		scs = append(scs, sc)
+	}
 	if thorough {
 		// two-call threads for the pairs that involve Close or maintenance
 		for _, m1 := range c10Methods[:12] {
